@@ -84,6 +84,7 @@ static bool exists_ref(const Comp& S, const Comp& B, bool wantNoAuth, Str* witne
 template <class X> void run(Ctx& c, const Str& Ss, const Str& Bs, const char* gen) {
     UriBox<X> S, B;
     if (S.parse(Ss) != URI_SUCCESS || B.parse(Bs) != URI_SUCCESS) { c.count("skipped_invalid"); return; }
+    if (!S.faithful() || !B.faithful()) { c.count("skipped_unfaithful_parse"); return; }
     Comp ms = split(Ss), mb = split(Bs);
     c.note(fmt("%s shorten src=\"%s\" base=\"%s\"", X::tag(), esc(Ss.substr(0, 150)).c_str(), esc(Bs.substr(0, 150)).c_str()));
     Ledger led;
@@ -106,7 +107,7 @@ template <class X> void run(Ctx& c, const Str& Ss, const Str& Bs, const char* ge
         }
         if (rc != URI_SUCCESS) { c.violation("C10", fmt("shorten/%s/unexpected-error", X::tag()), what + fmt(" rc=%d", rc)); continue; }
         D.live = true;
-        Str rt; if (D.str(&rt) != URI_SUCCESS) { c.violation("C10", fmt("shorten/%s/tostring-failed", X::tag()), what); continue; }
+        Str rt = D.text_of_fields();
         what += fmt(" reference=\"%s\"", esc(rt).c_str());
         c.distinct(hash_str(Ss + "\x01" + Bs, (uint64_t)root));
         bool schemesDiffer = ms.scheme != mb.scheme;
@@ -115,11 +116,13 @@ template <class X> void run(Ctx& c, const Str& Ss, const Str& Bs, const char* ge
         UriBox<X> T; int rr; { LibScope ls; rr = X::AddBaseUri(&T.u, &D.u, &B.u); } T.live = rr == URI_SUCCESS; c.evaluations++;
         Str want = canon(ms);
         Str viaLib = "<resolve failed>";
-        if (rr == URI_SUCCESS) { Str tt; if (T.str(&tt) == URI_SUCCESS) { size_t e; viaLib = dfa_uriref(tt, &e) ? canon(split(tt)) : "<not a uri: " + tt + ">"; } }
+        if (rr == URI_SUCCESS) { Str tt = T.text_of_fields(); size_t e; viaLib = dfa_uriref(tt, &e) ? canon(split(tt)) : "<not a uri: " + tt + ">"; }
         Str viaModel = "<reference text is not a URI reference>";
         { size_t e; if (dfa_uriref(rt, &e)) { Comp Tm; if (resolve(mb, split(rt), false, &Tm)) viaModel = canon(Tm); } }
-        if (viaLib != want || viaModel != want) {
-            c.violation("C10", fmt("shorten/%s/round-trip/%s", X::tag(), viaLib == want ? "model-only" : viaModel == want ? "library-resolver-only" : "both"),
+        // RFC resolution (the model) is the arbiter; the library's own resolver is judged by C06, a disagreement is only counted
+        if (viaLib != want && viaModel == want) c.count("library_resolver_disagrees_with_model");
+        if (viaModel != want) {
+            c.violation("C10", fmt("shorten/%s/round-trip/%s", X::tag(), viaLib == want ? "model-only" : "both"),
                         what + fmt(" resolves-to(lib)=\"%s\" resolves-to(model)=\"%s\" source-canonical=\"%s\" [%s]", esc(viaLib).c_str(), esc(viaModel).c_str(), esc(want).c_str(), gen));
         } else c.count("round_trip_ok");
         // (b) shape of the reference
